@@ -295,5 +295,31 @@ func certFacts(repo string, w *strings.Builder) error {
 		return true
 	})
 	fmt.Fprintf(w, "/-- `binarySearchDivider` of the bridge service's block searches -/\ndef binarySearchDivider : String := %q\n\n", div)
+	// 6. which configured key each flow's certificate signer is built from (aggsender/flows/factory.go NewFlow)
+	fset, af, err := parseOne(repo, "aggsender/flows/factory.go")
+	if err != nil {
+		return err
+	}
+	var keys []string
+	if fd := findFunc(af, "", "NewFlow"); fd != nil {
+		type hit struct {
+			pos token.Pos
+			s   string
+		}
+		var hits []hit
+		ast.Inspect(fd, func(x ast.Node) bool {
+			if c, ok := x.(*ast.CallExpr); ok {
+				if id, ok := c.Fun.(*ast.Ident); ok && id.Name == "initializeSigner" && len(c.Args) >= 2 {
+					hits = append(hits, hit{c.Pos(), nodeStr(fset, c.Args[1])})
+				}
+			}
+			return true
+		})
+		sort.Slice(hits, func(i, j int) bool { return hits[i].pos < hits[j].pos })
+		for _, h := range hits {
+			keys = append(keys, h.s)
+		}
+	}
+	fmt.Fprintf(w, "/-- `NewFlow`: the signer configuration handed to `initializeSigner`, per flow in source order -/\ndef flowSignerConfigs : List String := %s\n\n", leanStrList(keys))
 	return nil
 }
